@@ -542,6 +542,10 @@ def run(ctx: Ctx):
     from . import c11
     with ctx.delegated("C11/"):
         c11.run_affinity_subset(ctx)
+    # areas and extents are those of the converted shapes (anchored file geometry/conversion.py) of the geometries as given
+    from . import c03, c05
+    c05.run_conversion_subset(ctx)
+    c03.run_validation_subset(ctx)
     return EXPLANATION, ASSUMPTIONS
 
 
@@ -554,3 +558,10 @@ def run_for_detection(ctx: Ctx):
     c = C06(ctx)
     c.check_sets()
     c.check_body()
+    # "overlap" is the overlap of the shapes the geometries are converted / buffered to: a converter that drops a hole, or a
+    # buffering step that fills one, reports an overlap the geometries do not have
+    from . import c03, c05, c11
+    with ctx.delegated("C11/"):
+        c11.run_affinity_subset(ctx)
+    c05.run_conversion_subset(ctx)
+    c03.run_validation_subset(ctx)
